@@ -427,6 +427,7 @@ def run_schedule(world: PatchWorld, k: int, sched, body=None, layers=0, work=Non
             gates.grant(tid)
         lab2 = gates.label(tid)
         obs.append((0 if lab2 == "Done" else LABELS.get(lab2, 98), world.chain_depth(), world.counter(), world.lock_held()))
+    seen_at_end = [list(x) for x in seen]
     # let everything drain (round-robin) so no thread is left parked
     guard = 0
     while True:
@@ -448,7 +449,7 @@ def run_schedule(world: PatchWorld, k: int, sched, body=None, layers=0, work=Non
     for t in ths:
         t.join(timeout=5)
     final = (world.chain_depth(), world.counter(), world.lock_held())
-    return obs, seen, dict(gates.errors), final, results
+    return obs, (seen_at_end, seen), dict(gates.errors), final, results
 
 
 def coq_obs(o):
@@ -488,9 +489,25 @@ def extract_digest(path: str, data: bytes | None = None):
             from sharepoint2text.parsing.router import get_extractor
             res = list(get_extractor(path)(io.BytesIO(data), path))
         js = json.dumps([r.to_json() for r in res], sort_keys=True, default=repr, ensure_ascii=True)
-        return "ok:" + hashlib.sha1(js.encode()).hexdigest()[:16]
+        return "ok:" + hashlib.sha1(canon_json(js).encode()).hexdigest()[:16]
     except Exception as e:  # noqa
         return "exc:" + type(e).__name__
+
+
+_ADDR = re.compile(r"IndirectObject\((\d+), (\d+), \d+\)")
+_HEXADDR = re.compile(r" at 0x[0-9a-fA-F]+")
+_STAMP = re.compile(r"(\d{4}-\d{2}-\d{2})[T ]\d{2}:\d{2}:\d{2}(?:\.\d+)?")
+
+
+def canon_json(js: str) -> str:
+    """Remove what the property does not mention: object addresses and wall-clock 'now' stamps that
+    third-party parsers fill in for missing metadata (that is C06's subject, not isolation)."""
+    import datetime
+    now = datetime.datetime.now()
+    near = {(now + datetime.timedelta(days=d)).strftime("%Y-%m-%d") for d in (-1, 0, 1)}
+    js = _ADDR.sub(r"IndirectObject(\1, \2)", js)
+    js = _HEXADDR.sub(" at 0x", js)
+    return _STAMP.sub(lambda m: "<now>" if m.group(1) in near else m.group(0), js)
 
 
 def fd_count():
@@ -595,6 +612,23 @@ def translate_font_key(pe):
     raise TranslateError("inconsistent _FONT_CACHE keys")
 
 
+def translate_aes_open(pe):
+    """'eager' iff _open_pdf_reader calls patch_pypdf_fallback_aes() as a top-level statement before any
+    statement that constructs a PdfReader; 'lazy' iff only inside an except handler."""
+    src = Path(pe.__file__).read_text(encoding="utf-8")
+    fn = [n for n in ast.parse(src).body if isinstance(n, ast.FunctionDef) and n.name == "_open_pdf_reader"]
+    if len(fn) != 1:
+        raise TranslateError("_open_pdf_reader not found")
+    for st in fn[0].body:
+        if isinstance(st, ast.Expr) and _call_name(st.value) == "patch_pypdf_fallback_aes" and not st.value.args:
+            return "eager"
+        if any(_call_name(n) == "PdfReader" for n in ast.walk(st)):
+            break
+    if any(_call_name(n) == "patch_pypdf_fallback_aes" for n in ast.walk(fn[0])):
+        return "lazy"
+    raise TranslateError("_open_pdf_reader never installs the AES fallback")
+
+
 # ============================================================================ helper: isolated baselines
 _BASELINE_SNIPPET = r"""
 import sys, json, logging
@@ -622,7 +656,7 @@ def isolated_baselines(paths, per_proc=1):
         return json.loads(m.group(1))
 
     res = {}
-    with ThreadPoolExecutor(max_workers=12) as ex:
+    with ThreadPoolExecutor(max_workers=16) as ex:
         for r in ex.map(one, chunks):
             res.update(r)
     return res
@@ -655,11 +689,21 @@ for page in w.pages:
             n += 1
 if n:
     w.write(outdir + '/font_variant.pdf'); made['font_variant'] = outdir + '/font_variant.pdf'
-# (b) AES-encrypted copies with an empty user password (needs the fallback patch in THIS process)
+# (b) tiny AES-encrypted PDFs with an empty user password (needs the fallback patch in THIS process)
 try:
+    from pypdf.generic import DictionaryObject, NameObject, DecodedStreamObject
     patch_pypdf_fallback_aes()
     for alg in ('AES-128', 'AES-256'):
-        w = pypdf.PdfWriter(clone_from=pypdf.PdfReader(src))
+        w = pypdf.PdfWriter()
+        for pno in range(3):
+            page = w.add_blank_page(300, 200)
+            font = DictionaryObject({NameObject('/Type'): NameObject('/Font'), NameObject('/Subtype'): NameObject('/Type1'),
+                                     NameObject('/BaseFont'): NameObject('/Helvetica')})
+            page[NameObject('/Resources')] = DictionaryObject(
+                {NameObject('/Font'): DictionaryObject({NameObject('/F1'): w._add_object(font)})})
+            st = DecodedStreamObject()
+            st.set_data(b'BT /F1 12 Tf 20 100 Td (Isolation test 12345 page %d ' % pno + alg.encode() + b') Tj ET')
+            page[NameObject('/Contents')] = w._add_object(st)
         w.encrypt(user_password='', owner_password='owner', algorithm=alg)
         p = outdir + '/enc_' + alg.lower() + '.pdf'
         w.write(p); made['enc_' + alg.lower()] = p
@@ -669,8 +713,8 @@ print('RESULT' + json.dumps(made))
 """
 
 
-def make_documents(src_pdf: str, outdir: str):
-    p = subprocess.run([sys.executable, "-c", _MAKE_DOCS_SNIPPET, src_pdf, outdir], text=True, capture_output=True,
+def make_documents(src_pdf: str, outdir: str, tier: str = "quick"):
+    p = subprocess.run([sys.executable, "-c", _MAKE_DOCS_SNIPPET, src_pdf, outdir, tier], text=True, capture_output=True,
                        timeout=300, env=dict(os.environ))
     m = re.search(r"RESULT(.*)", p.stdout)
     return json.loads(m.group(1)) if m else {"error": p.stderr[-400:]}
@@ -697,6 +741,11 @@ def gen_files(ctx, pe, aes):
         fk, fk_err = "unknown", str(e)
     ctx.obligation("X:key-translation(_FONT_CACHE)", fk_err is None, fk_err or "")
     try:
+        aes_mode, aes_err = translate_aes_open(pe), None
+    except TranslateError as e:
+        aes_mode, aes_err = "unknown", str(e)
+    ctx.obligation("X:translation(_open_pdf_reader)", aes_err is None, aes_err or "")
+    try:
         ntargets = len(pe._get_pypdf_char_map_patcher()[0])
     except Exception:  # noqa
         ntargets = 0
@@ -717,10 +766,12 @@ def gen_files(ctx, pe, aes):
     txt += f"Definition round_key_cache_max : nat := {int(aes._ROUND_KEY_CACHE_MAX)}.\n\n"
     txt += f"(* pdf_extractor._ttf_get_glyph_features: _FONT_CACHE key = {fk} *)\n"
     txt += f"Definition font_key_has_gids : bool := {'true' if fk in ('keyed', 'nocache') else 'false'}.\n\n"
+    txt += f"(* pdf_extractor._open_pdf_reader: AES fallback installation = {aes_mode} *)\n"
+    txt += f"Definition aes_patch_eager : bool := {'true' if aes_mode == 'eager' else 'false'}.\n\n"
     txt += "(* functools.lru_cache capacities *)\n"
     txt += "Definition lru_caps : list nat := [" + "; ".join(str(int(c or 0)) for c in caps.values()) + "].\n"
     ctx.gen_write("Gen/C15Skeleton.v", txt)
-    notes.update(skeleton=sk_term, rk_shape=rk_shape, font_key=fk, patch_targets=ntargets, lru_caps=caps)
+    notes.update(aes_fallback=aes_mode, skeleton=sk_term, rk_shape=rk_shape, font_key=fk, patch_targets=ntargets, lru_caps=caps)
     return sk, rk_shape, rk_gates, fk, lru, notes
 
 
@@ -732,7 +783,7 @@ def patch_protocol_checks(ctx, pe, sk, notes):
     world = PatchWorld(pe, sk)
     world.reset()
     # ---- schedules from the model (enumerated by Coq over the GENERATED skeleton)
-    pre = "From S2T Require Import C15.Model C15.Corr Gen.C15Skeleton.\nImport List ListNotations.\n"
+    pre = "From Coq Require Import ZArith.\nFrom S2T Require Import C15.Model C15.Corr Gen.C15Skeleton.\nImport List ListNotations.\n"
     ks = [2] if ctx.tier == "quick" else [2, 3]
     runs = []
     for k in ks:
@@ -769,11 +820,11 @@ def patch_protocol_checks(ctx, pe, sk, notes):
     first = {}
     t0 = time.time()
     for layers, k, s in runs:
-        obs, seen, errs, final, _ = run_schedule(world, k, s, layers=layers)
+        obs, (seen_end, seen), errs, final, _ = run_schedule(world, k, s, layers=layers)
         switches = sum(1 for a, b in zip(s, s[1:]) if a != b)
         ctx.case(("sched", layers, k, tuple(s)), switches >= 1, kind=f"schedule:k={k}:layers={layers}")
         cases.append(f"({layers}, {k}, {coq_nat_list(s)}, {coq_obs(obs)}, "
-                     + "[" + "; ".join(coq_nat_list(x) for x in seen) + "])")
+                     + "[" + "; ".join(coq_nat_list(x) for x in seen_end) + "])")
         infos.append((layers, k, s, obs, seen))
         # property oracle = right-hand sides of C15_patch_restored / C15_patch_inside_wrapped, on the real globals
         # (the run is drained to completion by the harness, so `final` is the all-finished state)
@@ -986,13 +1037,14 @@ def font_cache_checks(ctx, pe, world, wirecard, variant, base):
         pe._FONT_CACHE.clear()
 
 
-def workload_checks(ctx, pe, aes, world, docs, base, tmproot, special):
+def workload_checks(ctx, pe, aes, world, docs, base, tmproot, special, aes0=False):
     rng = ctx.rng
     import sharepoint2text  # noqa
     from sharepoint2text.parsing.extractors import serialization
     fast = [d for d in docs if d not in special.values()]
     pe._FONT_CACHE.clear()
     snap0 = globals_snapshot(world)
+    snap0["aes_provider_patched"] = aes0      # as it was when the process started
     gc.collect()
     fd0, tmp0 = fd_count(), sorted(os.listdir(tmproot))
 
@@ -1049,9 +1101,14 @@ def workload_checks(ctx, pe, aes, world, docs, base, tmproot, special):
     rng.shuffle(hist)
     check_seq(hist, "sequence:all-fixtures")
     # history with the documents that exercise the caches and the one-way patch
-    sp = [special[k] for k in ("font_variant", "enc_aes-256", "wirecard") if k in special]
+    sp = [special[k] for k in ("font_variant", "enc_aes-128", "enc_aes-256", "wirecard") if k in special]
     if sp:
-        check_seq(sp + sp[::-1], "sequence:cache-documents")
+        # AES-128 before and after the AES-256 document, the font variant before and after the fixture
+        order = ["font_variant", "enc_aes-128", "enc_aes-256", "wirecard", "enc_aes-128", "font_variant"]
+        seq = [special[k] for k in order if k in special]
+        check_seq(seq, "sequence:cache-documents")
+        if ctx.tier == "thorough":
+            check_seq(seq[::-1], "sequence:cache-documents")
     residue("long histories", hist)
     # serialization registry: lazy fill must not change results (to_json/from_json round trip before/after)
     reg_before = dict(serialization._TYPE_REGISTRY)
@@ -1079,6 +1136,8 @@ def workload_checks(ctx, pe, aes, world, docs, base, tmproot, special):
                 w = w[: ctx.n(24, len(fast))]
                 # PDFs in every thread (the patched critical section), one slow AES document per round
                 w += [d for d in fast if d.endswith(".pdf")][:4]
+                if "enc_aes-128" in special and t < 4:
+                    w += [special["enc_aes-128"]] * 2      # concurrent users of the round-key cache
                 if t == 0 and "enc_aes-256" in special and rnd == 0:
                     w.append(special["enc_aes-256"])
                 if "font_variant" in special and t % 2:
@@ -1153,6 +1212,8 @@ def _run(ctx, tmproot, tmpdocs):
         "isolated baselines = fresh interpreter per document (testing); digests = sha1 of sorted-key to_json()",
     ]
     ctx.assumptions += ["CPython 3.12 GIL; pypdf 6.5.0 API (build_char_map in pypdf._page)", "threading.Lock (non re-entrant)"]
+    import pypdf._crypt_providers._fallback as fb
+    aes0 = fb.aes_cbc_decrypt is aes.aes_cbc_decrypt
     sk, rk_shape, rk_gates, fk, lru, notes = gen_files(ctx, pe, aes)
     ctx.extra["generated"] = notes
 
@@ -1160,19 +1221,20 @@ def _run(ctx, tmproot, tmpdocs):
         "C15_patch_refuted", "C15_patch_interference_refuted", "C15_patch_nesting_unbounded", "C15_patch_restored",
         "C15_patch_inside_wrapped", "C15_patch_no_deadlock", "C15_sequential_residue_free", "C15_memo_transparent",
         "C15_round_keys_atomic_is_memo", "C15_round_key_cache_race_refuted", "C15_font_cache_transparent_refuted",
-        "C15_font_cache_keyed_transparent", "C15_aes_patch_residue_refuted"])
+        "C15_font_cache_keyed_transparent", "C15_aes_patch_residue_refuted", "C15_aes_result_history_refuted",
+        "C15_aes_result_history_independent"])
     ctx.prove("C15/Inst.v", ["Gen/C15Skeleton.vo", "C15/Corr.vo", "C15/ProofsPatch.vo"], expected=[
         "C15_skeleton_is_locked_protocol", "C15_skeleton_restored", "C15_skeleton_inside_wrapped",
         "C15_single_patch_target", "C15_skeleton_safe_k2", "C15_skeleton_safe_k3_after_history"])
     ctx.prove("C15/InstMemo.v", ["Gen/C15Skeleton.vo"], expected=[
-        "C15_round_key_cache_atomic", "C15_font_cache_key_has_glyph_ids"])
+        "C15_round_key_cache_atomic", "C15_font_cache_key_has_glyph_ids", "C15_aes_fallback_installed_eagerly"])
 
     # ---- documents and isolated baselines
     fx = [str(p) for p in fixtures()]
     wirecard = next((p for p in fx if "wirecard" in p), None)
     special = {}
     if wirecard:
-        made = make_documents(wirecard, tmpdocs)
+        made = make_documents(wirecard, tmpdocs, ctx.tier)
         special.update({k: v for k, v in made.items() if k in ("font_variant", "enc_aes-256", "enc_aes-128")})
         special["wirecard"] = wirecard
         ctx.extra["made_documents"] = {k: (v if k.endswith("error") else Path(v).name) for k, v in made.items()}
@@ -1193,16 +1255,23 @@ def _run(ctx, tmproot, tmpdocs):
     for d in badb:
         docs.remove(d)
 
+    tm = ctx.extra.setdefault("phase_s", {})
+    t1 = time.time()
     if sk is not None:
         world = patch_protocol_checks(ctx, pe, sk, notes)
+        tm["schedules"] = round(time.time() - t1, 1); t1 = time.time()
         if wirecard:
             real_pdf_interference(ctx, world, wirecard, base[wirecard])
+        tm["real_pdf"] = round(time.time() - t1, 1); t1 = time.time()
     else:
         world = PatchWorld(pe, Skeleton())
     memo_checks(ctx, pe, aes, lru, rk_shape, rk_gates, fk)
+    tm["memo"] = round(time.time() - t1, 1); t1 = time.time()
     if wirecard:
         font_cache_checks(ctx, pe, world, wirecard, special.get("font_variant"), base)
-    workload_checks(ctx, pe, aes, world, docs, base, tmproot, special)
+    tm["font"] = round(time.time() - t1, 1); t1 = time.time()
+    workload_checks(ctx, pe, aes, world, docs, base, tmproot, special, aes0)
+    tm["workloads"] = round(time.time() - t1, 1)
 
 
 META = {
